@@ -374,3 +374,35 @@ func init() {
 		"beginTime.AddDate(0, int(license.VestingMonths), 0)", "beginTime.AddDate(int(license.VestingMonths), 0, 0)",
 		"vesting period is counted in months"})
 }
+
+func init() {
+	// fifth generation: positive controls for the rules added after the sixth seeding round (each differs
+	// from the seeded change that led to the rule)
+	addMutant(Mutant{"C03-loop-left-on-message-without-metadata", "C03", "x/paloma/ante.go",
+		"does not contain metadata. skipping ownership verification...\", proto.MessageName(msg)))\n\t\t\tcontinue", "does not contain metadata. skipping ownership verification...\", proto.MessageName(msg)))\n\t\t\tbreak",
+		"the message loop is left only with an error or after the last message"})
+	addMutant(Mutant{"C03-envelope-opened-one-level", "C03", "x/paloma/ante.go",
+		"nested, err := unwrapNestedMsgs(inner)\n\t\tif err != nil {\n\t\t\treturn nil, err\n\t\t}\n\t\tout = append(out, nested...)", "out = append(out, inner...)",
+		"messages inside an authz MsgExec are opened at every depth"})
+	addMutant(Mutant{"C01-vote-dedupe-by-other-identity", "C01", "x/skyway/keeper/attestation.go",
+		"if !slices.Contains(att.Votes, valAddr) {", "if !slices.Contains(att.Votes, claim.GetCompassID()) {",
+		"voter de-duplicated"})
+	addMutant(Mutant{"C01-binding-entry-deleted", "C01", "x/skyway/keeper/cosmos-originated.go",
+		"\tdenomToERC20 := types.ERC20ToDenom{\n\t\tChainReferenceId: chainReferenceId,\n\t\tDenom:            denom,", "\tstore.Delete(types.GetERC20ToDenomKey(chainReferenceId, tokenContract))\n\tdenomToERC20 := types.ERC20ToDenom{\n\t\tChainReferenceId: chainReferenceId,\n\t\tDenom:            denom,",
+		"Delete of a contract -> denom entry"})
+	addMutant(Mutant{"C08-comparator-self-comparison", "C08", "x/evm/keeper/msg_assigner.go",
+		"return strings.Compare(a.address, b.address)", "return strings.Compare(a.address, a.address)",
+		"comparator sets the first element against the second in every component"})
+	addMutant(Mutant{"C09-prefix-test-on-other-string", "C09", "x/paloma/keeper/keeper.go",
+		"if !strings.HasPrefix(govVer, \"v\") {", "if !strings.HasPrefix(k.AppVersion, \"v\") {",
+		"a version string is rewritten under a test on itself"})
+	addMutant(Mutant{"C11-send-to-paloma-fields-glued", "C11", "x/skyway/types/msgs.go",
+		"\"%d/%d/%s/%s/%s/%s/%s\", msg.SkywayNonce, msg.EthBlockHeight, msg.TokenContract", "\"%d/%d/%s/%s/%s%s/%s\", msg.SkywayNonce, msg.EthBlockHeight, msg.TokenContract",
+		"hashed fields are separated"})
+	addMutant(Mutant{"C14-table-keyed-by-sender-and-chain", "C14", "x/consensus/keeper/filters/is_oldest_per_sender_filter.go",
+		"sender := string(slc.GetSenderAddress())", "sender := string(slc.GetSenderAddress()) + string(slc.GetPayload()[:0])",
+		"the table key is the sender address alone"})
+	addMutant(Mutant{"C19-remove-files-under-fee-granter", "C19", "app/mempool/priority_nonce.go",
+		"sender := sdk.AccAddress(sig.PubKey.Address()).String()\n\tnonce := sig.Sequence\n\n\tscoreKey", "sender := sdk.AccAddress(tx.(sdk.FeeTx).FeeGranter()).String()\n\tnonce := sig.Sequence\n\n\tscoreKey",
+		"a transaction is filed under its first signer"})
+}
